@@ -6,7 +6,7 @@ timeout = 900
 solver = "kissat"
 function = "Circuit::expandCellsToDensity, expandCellsByFactor, computeRowPlacementArea (per-row step), computeCellExpansion (coloquinte.cpp)"
 variants = [
-  {name = "byFactor", enforce = "Circuit_expandCellsByFactor", tier = "thorough", timeout = 3000, defines = ["H_FACTOR"], replace = ["Circuit_computeRowPlacementArea"]},
+  {name = "byFactor", enforce = "Circuit_expandCellsByFactor", tier = "thorough", timeout = 3000, memory_gb = 20, defines = ["H_FACTOR"], replace = ["Circuit_computeRowPlacementArea"]},
   {name = "byFactorStep", enforce = "factor_step", defines = ["H_FSTEP"]},
   {name = "toDensityWidth", properties = ["C18"], enforce = "density_width", defines = ["H_DWIDTH"]},
   {name = "toDensityStep", properties = ["C18"], safety_tier = "thorough", enforce = "density_step", defines = ["H_DSTEP"]},
